@@ -557,8 +557,21 @@ pub fn hammer(args: &Args, rep: &mut Report) {
     let n_places: usize = extra(args, "places").and_then(|s| s.parse().ok()).unwrap_or(4096);
     let iters: usize = extra(args, "iters").and_then(|s| s.parse().ok()).unwrap_or(250_000);
     let mut r = Rng::new(args.seed, 0x4a33e7, n_places as u64);
-    let exprs = ["sunrise-sunset", "dawn-dusk", "(sunrise+01:00)-(sunset-01:00); PH off", "Mo-Fr sunrise-12:00,13:00-dusk unknown \"c\"", "PH,SH 10:00-sunset; PH +1 day off"];
-    let days: Vec<NaiveDate> = vec![NaiveDate::from_ymd_opt(2024, 6, 21).unwrap(), NaiveDate::from_ymd_opt(2025, 12, 21).unwrap() + Duration::days(r.range(0, 300)), NaiveDate::from_ymd_opt(2024, 12, 25).unwrap(), NaiveDate::from_ymd_opt(2025, 1, 1).unwrap()];
+    // profile "sun": sun events only, two days, one calendar - the shortest calls on the fewest days,
+    // so that two threads meet in shared state as often as possible; profile "mixed": also the
+    // embedded calendars of all countries, holiday selectors and four days
+    let sun_only = extra(args, "profile").map(|p| p == "sun").unwrap_or(false);
+    let exprs: Vec<&str> = if sun_only {
+vec!["sunrise-sunset", "dawn-dusk"]
+    } else {
+        vec!["sunrise-sunset", "dawn-dusk", "(sunrise+01:00)-(sunset-01:00); PH off", "Mo-Fr sunrise-12:00,13:00-dusk unknown \"c\"", "PH,SH 10:00-sunset; PH +1 day off"]
+    };
+    let second = NaiveDate::from_ymd_opt(2025, 12, 21).unwrap() + Duration::days(r.range(0, 300));
+    // (profile "sun": ONE day, so that every pair of threads works on the same day all the time)
+    let mut days: Vec<NaiveDate> = if sun_only { vec![NaiveDate::from_ymd_opt(2024, 6, 21).unwrap()] } else { vec![NaiveDate::from_ymd_opt(2024, 6, 21).unwrap(), second] };
+    if !sun_only {
+        days.extend([NaiveDate::from_ymd_opt(2024, 12, 25).unwrap(), NaiveDate::from_ymd_opt(2025, 1, 1).unwrap()]);
+    }
     // places: half spread over the globe below 60 degrees, half in clusters a few metres apart
     let mut places: Vec<(f64, f64)> = Vec::with_capacity(n_places);
     while places.len() < n_places {
@@ -577,7 +590,7 @@ pub fn hammer(args: &Args, rep: &mut Report) {
         .map(|(i, (la, lo))| {
             let coords = Coordinates::new(*la, *lo).unwrap();
             // calendars: the synthetic one, or the embedded calendar of one of the 115 countries
-            let holidays = if i % 3 == 0 { hol.build() } else { Country::ALL[(i / 3) % Country::ALL.len()].holidays() };
+            let holidays = if sun_only || i % 3 == 0 { hol.build() } else { Country::ALL[(i / 3) % Country::ALL.len()].holidays() };
             let ctx = Context::default().with_holidays(holidays).with_locale(TzLocation::new(zones[i % zones.len()]).with_coords(coords));
             OpeningHours::parse(exprs[i % exprs.len()]).unwrap().with_context(ctx)
         })
@@ -644,7 +657,7 @@ pub fn hammer(args: &Args, rep: &mut Report) {
     rep.add("hammer_concurrent_evaluations", total);
     rep.add("hammer_wrong_answers", total_bad);
     rep.max("hammer_places", places.len() as u64);
-    rep.count(&format!("hammer_runs.places_{}", places.len()));
+    rep.count(&format!("hammer_runs.places_{}.{}", places.len(), if sun_only { "sun" } else { "mixed" }));
 }
 
 pub fn run(args: &Args, rep: &mut Report) {
